@@ -165,13 +165,16 @@ def gen_case(rng):
         else:
             cfg = None
     return {"kind": kind, "traits": traits, "variants": variants, "decl": decl, "where": wh, "dv": dv,
-            "entry": rng.choice(["attr", "derive"]), "split": rng.random() < 0.15, "stdv": stdv, "cfg": cfg}
+            "entry": rng.choice(["attr", "derive"]), "split": rng.random() < 0.15, "stdv": stdv, "cfg": cfg,
+            # lints: `#[deprecated]` on fields / variants / the type; non-snake-case field names the item allows
+            "lint": rng.choice(["deprecated", "names"]) if rng.random() < 0.12 else None, "lint_on_type": rng.random() < 0.3}
 
 
 def render(s, with_dx=True, resolved=False):
     """resolved: the item as it is after conditional compilation (false parts removed, cfg / cfg_attr wrappers dropped)."""
     g = "<" + ", ".join(s["decl"]) + ">" if s["decl"] else ""
     wh = f" where {s['where']}" if s["where"] else ""
+    lint = s.get("lint")
     bodies = []
     for vi, v in enumerate(s["variants"]):
         fs = []
@@ -184,7 +187,10 @@ def render(s, with_dx=True, resolved=False):
             a = (" ".join(attrs) + " ") if (with_dx and attrs) else ""
             if f.get("cfg") and not resolved:
                 a = ("#[cfg(any())] " if f["cfg"] == "false" else "#[cfg(all())] ") + a
-            fs.append(f"{a}f{i}: {f['ty'][0]}" if v["style"] == "named" else f"{a}{f['ty'][0]}")
+            if lint == "deprecated" and i == 0:
+                a = "#[deprecated] " + a
+            fn_ = f"Fld{i}" if lint == "names" else f"f{i}"
+            fs.append(f"{a}{fn_}: {f['ty'][0]}" if v["style"] == "named" else f"{a}{f['ty'][0]}")
         bodies.append("{ " + ", ".join(fs) + " }" if v["style"] == "named" else ("(" + ", ".join(fs) + ")" if v["style"] == "tuple" else ""))
     if s["kind"] == "struct":
         st = s["variants"][0]["style"]
@@ -197,8 +203,14 @@ def render(s, with_dx=True, resolved=False):
                     vs.append(f"#[cfg(any())] V{vi}{b}")
                 continue
             m = "#[default] " if ((with_dx and s["dv"] == vi and (len(bodies) > 1 or vi % 2 == 0)) or s.get("stdv") == vi) else ""
+            if lint == "deprecated" and vi % 2 == 1:
+                m += "#[deprecated] "
             vs.append(f"{m}V{vi}{b}")
         item = f"pub enum Ty{g}{wh} {{ " + ", ".join(vs) + " }"
+    if lint == "deprecated" and s.get("lint_on_type"):
+        item = "#[deprecated]\n" + item
+    if lint == "names":
+        item = "#[allow(non_snake_case)]\n" + item
     std = "#[derive(Default)]\n" if s.get("stdv") is not None else ""
     if not with_dx:
         return std + item
@@ -234,6 +246,8 @@ def features(s):
         t.append("lifetime")
     if any("const" in p for p in s["decl"]):
         t.append("const")
+    if s.get("lint"):
+        t.append("lint-" + s["lint"])
     return "+".join(t)
 
 
@@ -373,7 +387,7 @@ def run(rep, tier, rng):
                 "and single-variant enums x lifetime/type/const parameters with inline bounds, defaults and where-clauses mentioning `Self` x "
                 "field types over the parameters (also through projections `I::Item`) x ord/hash ignore/reverse/key/by (generic-friendly functions) with `by` on first/middle/last "
                 "fields, debug ignore/transparent/bound, default values, `Self` inside key expressions, a std #[derive(Default)] sharing the item, "
-                "a second derived type in the same scope, fields / variants under #[cfg(any())] / #[cfg(all())] and helper attributes inside "
+                "a second derived type in the same scope, `#[deprecated]` fields / variants / types and non-snake-case field names under the item's own `#[allow]`, fields / variants under #[cfg(any())] / #[cfg(all())] and helper attributes inside "
                 "#[cfg_attr(all(), ..)] x both entry points; compiled metadata-only under #![deny(warnings)]. "
                 "Oracle: if derive_ex reports no error of its own and the control (same definition without derive_ex) compiles, rustc must "
                 "report no error and no denied warning located in derive_ex's output (lints the std derive draws from the same field types "
